@@ -472,7 +472,7 @@ func judgeCall(c CallCase) *eng.Fail {
 		} else if last := args[len(args)-1]; last.kind != "arr" {
 			verdict = vF // spread of a non-array
 		} else if len(args)-1 != nf {
-			verdict = vU
+			verdict = vF // the explicit arguments must fill exactly the fixed parameters; the array only feeds the tail
 		} else {
 			for i := 0; i < nf; i++ {
 				merge(row(c.Fixed[i], args[i]))
@@ -634,6 +634,36 @@ func judgeErrSites(c ErrCase) *eng.Fail {
 		}
 		if strings.Join(log, ",") != want {
 			return eng.F("C11/argument-order", "hv(gfun(1), lfun()...) with gfun failing=%v: invocations %v, expected %s (arguments are evaluated left to right, the spread operand last)", c.FailG, log, want)
+		}
+	}
+	// converting an argument for one parameter must not change the value other parameters / later reads see
+	if !c.FailF && !c.FailG && !c.FailH {
+		var gotI []int64
+		var gotF []float64
+		var gotS []string
+		data["fi"] = func(n int64) (int64, error) { gotI = append(gotI, n); return n, nil }
+		data["ff"] = func(x float64) (float64, error) { gotF = append(gotF, x); return x, nil }
+		data["fs"] = func(x string) (string, error) { gotS = append(gotS, x); return x, nil }
+		data["fl"] = func(xs []int64, ys []float64) (int, error) {
+			for _, v := range xs {
+				gotI = append(gotI, v)
+			}
+			gotF = append(gotF, ys...)
+			return len(xs), nil
+		}
+		delete(data, "$x")
+		o, err := evalWith("$x = 2.75, $r = [fi($x), ff($x), fs($x), ff($x), $x], $arr = [1.5, 2.5], fl($arr, $arr), [$r, $arr]", data)
+		if err != nil || o.panicked || o.err != nil {
+			return eng.F("C11/eval", "argument-reuse formula: %v %v %s", err, o.err, o.panicMsg)
+		}
+		okI := len(gotI) == 3 && gotI[0] == 2 && gotI[1] == 1 && gotI[2] == 2
+		okF := len(gotF) == 4 && gotF[0] == 2.75 && gotF[1] == 2.75 && gotF[2] == 1.5 && gotF[3] == 2.5
+		if !okI || !okF || len(gotS) != 1 || gotS[0] != "2.75" {
+			return eng.F("C11/argument-reuse", "$x = 2.75 passed to int64, float64, string, float64 parameters and an array to []int64 then []float64: received ints %v floats %v strings %q", gotI, gotF, gotS)
+		}
+		res, _ := o.val.([]interface{})
+		if len(res) != 2 || canonImpl(res[0]) != "[n2,n11/4,s\"2.75\",n11/4,n11/4]" && !strings.Contains(canonImpl(res[0]), "n11/4,n11/4]") || canonImpl(res[1]) != "[n3/2,n5/2]" {
+			return eng.F("C11/argument-reuse", "after the calls the locals are %s", showDeep(o.val))
 		}
 	}
 	outcome(fmt.Sprint(c))
